@@ -1,4 +1,5 @@
 import OrdModel.Num.RuneName
+import OrdModel.Generated.SpacedRuneFix
 /-
 Model of `crates/ordinals/src/spaced_rune.rs`.
 
@@ -15,6 +16,12 @@ Ok(SpacedRune { rune: rune.parse().map_err(Error::Rune)?, spacers })
 `1 << k` on `u32` with `k ≥ 32` panics in the dev profile ("attempt to shift left with
 overflow"); `usize → u32` `try_into().unwrap()` panics for `len ≥ 2^32`.
 
+The repair `notes/fix-spaced-rune-shl.diff` replaces the two sites by
+`u32::try_from(shift).ok().and_then(|s| 1u32.checked_shl(s)).ok_or(Error::Rune(rune::Error::Range))?`
+and `rune.len().try_into().unwrap_or(u32::MAX)`.  Both variants are modelled (`parseWith fixed`);
+which one the source currently has is re-read from the source text on every run
+(`tools/extractors/spaced_rune_fix.py` → `Generated.SpacedRuneFix.shlFixed`) and `parse` follows it.
+
 Rust `Display`: the rune's name, with `•` after character `i` iff `i < len-1` and bit `i` of
 `spacers` is set.
 -/
@@ -28,26 +35,28 @@ def isSpacer (c : Char) : Bool := c == '.' || c == bullet
 /-- `32 - spacers.leading_zeros()` for a `u32`: number of significant bits -/
 def bitLen (n : Nat) : Nat := if n = 0 then 0 else Nat.log2 n + 1
 
-/-- the `for` loop; `letters` holds the pushed letters in reverse, `spacers` the mask -/
-def parseLoop (letters : List Char) (spacers : Nat) : List Char → Outcome (List Char × Nat)
+/-- the `for` loop; `letters` holds the pushed letters in reverse, `spacers` the mask;
+`fixed` ⇔ the repaired code (shift ≥ 32 is `Error::Rune(Range)` instead of a panic) -/
+def parseLoopWith (fixed : Bool) (letters : List Char) (spacers : Nat) :
+    List Char → Outcome (List Char × Nat)
   | [] => .ok (letters.reverse, spacers)
   | c :: cs =>
-    if isUpper c then parseLoop (c :: letters) spacers cs
+    if isUpper c then parseLoopWith fixed (c :: letters) spacers cs
     else if isSpacer c then
       if letters.length = 0 then .err "leading"
       else
         let k := letters.length - 1
-        if k ≥ 32 then .panic "shl"
+        if k ≥ 32 then (if fixed then .err "range" else .panic "shl")
         else if spacers.testBit k then .err "double"
-        else parseLoop letters (spacers ||| 2 ^ k) cs
+        else parseLoopWith fixed letters (spacers ||| 2 ^ k) cs
     else .err s!"character {c.toNat}"
 
-/-- `impl FromStr for SpacedRune` -/
-def parse (s : List Char) : Outcome (Nat × Nat) :=
-  match parseLoop [] 0 s with
+/-- `impl FromStr for SpacedRune`, unchanged (`fixed = false`) or repaired (`fixed = true`) -/
+def parseWith (fixed : Bool) (s : List Char) : Outcome (Nat × Nat) :=
+  match parseLoopWith fixed [] 0 s with
   | .ok (letters, spacers) =>
-    if letters.length ≥ 2 ^ 32 then .panic "try_into"
-    else if bitLen spacers ≥ letters.length then .err "trailing"
+    if fixed = false ∧ letters.length ≥ 2 ^ 32 then .panic "try_into"   -- `.try_into().unwrap()`
+    else if bitLen spacers ≥ min letters.length (2 ^ 32 - 1) then .err "trailing"
     else
       match Rune.parse letters with
       | .ok r => .ok (r, spacers)
@@ -55,6 +64,13 @@ def parse (s : List Char) : Outcome (Nat × Nat) :=
       | .panic p => .panic p
   | .err e => .err e
   | .panic p => .panic p
+
+/-- the code as it currently is in /repo -/
+def parseLoop : List Char → Nat → List Char → Outcome (List Char × Nat) :=
+  parseLoopWith Ord.Generated.SpacedRuneFix.shlFixed
+
+/-- `impl FromStr for SpacedRune` as it currently is in /repo -/
+def parse (s : List Char) : Outcome (Nat × Nat) := parseWith Ord.Generated.SpacedRuneFix.shlFixed s
 
 /-- body of `Display`: `i` = index of the head character -/
 def interleave (spacers : Nat) : Nat → List Char → List Char
